@@ -1075,3 +1075,71 @@ func lengthGuarded(fn *ssa.Function, call *ssa.Call, base ssa.Value, desc string
 	}
 	return false
 }
+
+// ---------------------------------------------------------------------------------------------
+// DEAD-CHECK-VALUE: in a verifier, a local that is only ever the destination of arithmetic
+// (Set / ScalarMultiplication / Add ... with the local as receiver) and is never compared, passed
+// on or returned is a check that was prepared and then forgotten (e.g. a folded commitment that
+// is computed and dropped: the corresponding input of the proof is not bound to anything).
+// ---------------------------------------------------------------------------------------------
+func deadAccumulators(p *Program, fn *ssa.Function) (int, []Finding) {
+	var hits []Finding
+	n := 0
+	for _, b := range fn.Blocks {
+		for _, in := range b.Instrs {
+			a, ok := in.(*ssa.Alloc)
+			if !ok || a.Referrers() == nil {
+				continue
+			}
+			if _, isStruct := a.Type().(*types.Pointer).Elem().Underlying().(*types.Struct); !isStruct {
+				if _, isArr := a.Type().(*types.Pointer).Elem().Underlying().(*types.Array); !isArr {
+					continue
+				}
+			}
+			// aliases: the alloc and results of fluent calls on it
+			alias := map[ssa.Value]bool{a: true}
+			for changed := true; changed; {
+				changed = false
+				for v := range alias {
+					if v.Referrers() == nil {
+						continue
+					}
+					for _, r := range *v.Referrers() {
+						if c, ok := r.(*ssa.Call); ok && len(c.Call.Args) > 0 && c.Call.Args[0] == v && types.Identical(c.Type(), a.Type()) && !alias[c] {
+							alias[c] = true
+							changed = true
+						}
+					}
+				}
+			}
+			defs, used := 0, false
+			for v := range alias {
+				if v.Referrers() == nil {
+					continue
+				}
+				for _, r := range *v.Referrers() {
+					switch x := r.(type) {
+					case *ssa.Call:
+						if len(x.Call.Args) > 0 && alias[x.Call.Args[0]] && types.Identical(x.Type(), a.Type()) {
+							defs++ // fluent arithmetic with the local as destination (it may also read itself)
+							continue
+						}
+						used = true
+					case *ssa.DebugRef:
+					default:
+						used = true
+					}
+				}
+			}
+			if defs == 0 {
+				continue
+			}
+			n++
+			if !used {
+				hits = append(hits, Finding{fn, a.Pos(), "computed-value-used(" + allocName(a) + ")",
+					fmt.Sprintf("%s: the local %s is computed (%d arithmetic steps) and then never compared, passed on or returned: a check of the scheme was prepared and dropped", funcKey(fn), allocName(a), defs)})
+			}
+		}
+	}
+	return n, hits
+}
